@@ -85,7 +85,7 @@ EditArgsOK(cur, e) ==
 BuildClauses(cur, e) ==
   << <<"C03.build.shape", e.anom = <<>> >>,
      <<"C03.build.total", e.out = "value">>,
-     <<"T.edit.args",     EditArgsOK(cur, e)>> >>
+     <<"C03.build.args",     EditArgsOK(cur, e)>> >>
   \o Guarded(EditArgsOK(cur, e), << <<"C03.build.step",  SameModel(e.post, BuildExpected(cur, e))>> >>)
   \o WfClauses("C03.build", e.post)
 
